@@ -1,5 +1,6 @@
 import CGV.Props.C07
 import CGV.Props.C07Path
+import CGV.Props.C07Tree
 #print axioms CGV.C07.C07_symbols_inverse
 #print axioms CGV.C07.C07_single_bond_silent
 #print axioms CGV.C07.C07_marker_fresh
@@ -10,3 +11,10 @@ import CGV.Props.C07Path
 #print axioms CGV.C07.writeGraph_path
 #print axioms CGV.C07.writeLoop_path
 #print axioms CGV.C07.writeStep_path
+#print axioms CGV.C07.C07_tree_roundtrip
+#print axioms CGV.C07.writeGraph_tree
+#print axioms CGV.C07.loop_T
+#print axioms CGV.C07.loop_K
+#print axioms CGV.C07.render_itemsT
+#print axioms CGV.C07.itemsT_balanced
+#print axioms CGV.C07.exGraph_emb
